@@ -158,6 +158,25 @@ package cty
 //@   ensures[C04] marks_kept: (forall ((k Any)) (! (=> (or (select (marks_of val) k) (select (marks_of other) k)) (select (marks_of result) k)) :pattern ((select (marks_of result) k))))
 //@   ensures[assumed] (=> (and (is_bool_ty (vty val)) (is_bool_ty (vty other)) (kn val) (kn other) (not (is_marked val)) (not (is_marked other))) (and (not (is_marked result)) (bool_payload result (= (bool_of val) (bool_of other)))))
 //@   ensures[assumed] (=> (and (is_string_ty (vty val)) (is_string_ty (vty other)) (kn val) (kn other) (not (is_marked val)) (not (is_marked other))) (and (not (is_marked result)) (bool_payload result (= (str_of val) (str_of other)))))
+// Collection cases (C03), proved: a known True for two known maps means that every key of the receiver is a
+// key of the other map (with the equal lengths tested first: the key sets are equal), and for two known
+// lists that the lengths agree. eq_true is the view "Equals answers a known True" (assumed functional).
+//@   ensures[assumed] (= (eq_true val other) (bool_payload (unmark result) true))
+//@   let plainpair (and (not (deep_marked val)) (not (deep_marked other)) (kn val) (kn other))
+//@   ensures[C03] map_keys: (=> (and plainpair (is_map_ty (vty val)) (bool_payload result true)) (and (= (MapC<String~Any>.card (raw_mapc (cty.Value.v val))) (MapC<String~Any>.card (raw_mapc (cty.Value.v other)))) (forall ((k String)) (! (=> (select (MapC<String~Any>.dom (raw_mapc (cty.Value.v val))) k) (select (MapC<String~Any>.dom (raw_mapc (cty.Value.v other))) k)) :pattern ((select (MapC<String~Any>.dom (raw_mapc (cty.Value.v val))) k))))))
+//@   ensures[C03] map_elems: (=> (and plainpair (is_map_ty (vty val)) (bool_payload result true)) (forall ((k String)) (! (=> (select (MapC<String~Any>.dom (raw_mapc (cty.Value.v val))) k) (eq_true (mkval (elem_ty (vty val)) (select (MapC<String~Any>.val (raw_mapc (cty.Value.v val))) k)) (mkval (elem_ty (vty val)) (select (MapC<String~Any>.val (raw_mapc (cty.Value.v other))) k)))) :pattern ((select (MapC<String~Any>.dom (raw_mapc (cty.Value.v val))) k)))))
+//@   ensures[C03] list_len: (=> (and plainpair (is_list_ty (vty val)) (bool_payload result true)) (= (Slice.len (pl_seq val)) (Slice.len (pl_seq other))))
+//@   ensures[C03] list_elems: (=> (and plainpair (is_list_ty (vty val)) (bool_payload result true)) (forall ((j Int)) (! (=> (and (trig j) (<= 0 j) (< j (Slice.len (pl_seq val)))) (eq_true (mkval (elem_ty (vty val)) (pl_seq_at val j)) (mkval (elem_ty (vty val)) (pl_seq_at other j)))) :pattern ((trig j)))))
+//@   loop 6 invariant (forall ((k String)) (! (=> (select $visited k) (and (select (MapC<String~Any>.dom (raw_mapc (cty.Value.v other))) k) (eq_true (mkval (elem_ty (vty val)) (select (MapC<String~Any>.val (raw_mapc (cty.Value.v val))) k)) (mkval (elem_ty (vty val)) (select (MapC<String~Any>.val (raw_mapc (cty.Value.v other))) k))))) :pattern ((select $visited k))))
+//@   ensures[C03] tuple_elems: (=> (and plainpair (is_tuple_ty (vty val)) (bool_payload result true)) (forall ((j Int)) (! (=> (and (trig j) (<= 0 j) (< j (tuple_len (vty val)))) (eq_true (mkval (tuple_at (vty val) j) (pl_seq_at val j)) (mkval (tuple_at (vty val) j) (pl_seq_at other j)))) :pattern ((trig j)))))
+//@   ensures[C03] obj_elems: (=> (and plainpair (is_obj_ty (vty val)) (bool_payload result true)) (forall ((k String)) (! (=> (select (obj_dom (vty val)) k) (eq_true (mkval (obj_aty (vty val) k) (select (MapC<String~Any>.val (raw_mapc (cty.Value.v val))) k)) (mkval (obj_aty (vty val) k) (select (MapC<String~Any>.val (raw_mapc (cty.Value.v other))) k)))) :pattern ((select (obj_dom (vty val)) k)))))
+//@   loop 2 invariant (forall ((j Int)) (! (=> (and (trig j) (<= 0 j) (< j $i)) (eq_true (mkval (tuple_at (vty val) j) (pl_seq_at val j)) (mkval (tuple_at (vty val) j) (pl_seq_at other j)))) :pattern ((trig j))))
+//@   loop 1 invariant (forall ((k String)) (! (=> (select $visited k) (eq_true (mkval (obj_aty (vty val) k) (select (MapC<String~Any>.val (raw_mapc (cty.Value.v val))) k)) (mkval (obj_aty (vty val) k) (select (MapC<String~Any>.val (raw_mapc (cty.Value.v other))) k)))) :pattern ((select $visited k))))
+//@   loop 3 invariant (forall ((j Int)) (! (=> (and (trig j) (<= 0 j) (< j $i)) (eq_true (mkval (elem_ty (vty val)) (pl_seq_at val j)) (mkval (elem_ty (vty val)) (pl_seq_at other j)))) :pattern ((trig j))))
+//
+//@ func (cty.Value).Equals$1
+//@   tags C03
+//@   ensures[C03] (and (not (is_known result)) (not (is_marked result)))
 //
 //@ func (cty.Value).True
 //@   tags C02
